@@ -752,6 +752,33 @@ func monitorC10(caseLine string) (fails []Failure) {
 			}
 		}
 	}
+	// the same history with Bytes called only where the history says so (asking for the bytes after every
+	// operation, as above, also initialises a zero-value Encoder early): the verdict at the end
+	var e2 encode.Encoder
+	st = PFresh
+	for _, op := range ops {
+		st = PStep(st, op)
+		switch op.Name {
+		case "rc":
+			e2.CSel()
+		case "rn":
+			e2.NSel()
+		case "rlod":
+			e2.LOD()
+		case "bytes":
+			e2.Bytes()
+		case "hires":
+			e2.HighResolutionCoordinates = op.B
+		default:
+			func() {
+				defer func() { recover() }()
+				op.Apply(&e2)
+			}()
+		}
+	}
+	if _, berr := e2.Bytes(); (berr != nil) != (st == PFailed) {
+		fails = append(fails, Failure{"C10.error-iff-violation", caseLine, fmt.Sprintf("at the end of the history: Bytes error=%v, protocol violated=%v", berr, st == PFailed)})
+	}
 	return
 }
 
@@ -762,12 +789,35 @@ func suiteC10(s *Shard, n int) {
 		if r.Chance(30) {
 			o.Malformed = 0
 		}
+		if r.Chance(8) {
+			o.MaxRun, o.Malformed = 0, 0 // long runs of one verb, up to several hundred
+		}
 		ops := r.Program(o)
 		if r.Chance(25) {
 			// an earlier history (possibly erroneous or left mid-path with a pending run), then Reset and a program
 			a := r.Program(ProgOpts{Wild: r.Chance(20), Arcs: true, Reset: 2, MaxPaths: 2, MaxRun: 4, Histories: true, Malformed: 5, OpenEnd: 70})
 			b := r.Program(ProgOpts{Arcs: true, Reset: 1, MaxPaths: 2, MaxRun: 5, Histories: r.Bool()})
 			ops = append(a, b...)
+		}
+		if r.Chance(10) {
+			// the zero value: a first call of any kind, then reads in any order, before anything else
+			var head []Call
+			switch r.Intn(4) {
+			case 0:
+				head = append(head, r.DrawCall(o, drawVerbs[r.Intn(len(drawVerbs))]))
+			case 1:
+				head = append(head, Call{Name: "Z"})
+			case 2:
+				head = append(head, Call{Name: "creg", Adj: uint8(7 + r.Intn(3)), Col: r.Color()})
+			default:
+				head = append(head, Call{Name: "hires", B: r.Bool()})
+			}
+			for k := 1 + r.Intn(3); k > 0; k-- {
+				head = append(head, Call{Name: []string{"rc", "rn", "rlod", "bytes"}[r.Intn(4)]})
+			}
+			o2 := o
+			o2.Reset = 0
+			ops = append(head, r.Program(o2)...)
 		}
 		line := EncCase(ops)
 		obs := s.EmitRun(line)
@@ -872,7 +922,123 @@ func monitorC11(caseLine string) (fails []Failure) {
 	if want := len(calls) - 1; nInstr != want {
 		fails = append(fails, Failure{"C11.line-per-call", caseLine, fmt.Sprintf("%d instruction lines, %d calls after Reset", nInstr, want)})
 	}
+	fails = append(fails, listingOperands(caseLine, string(text), calls)...)
 	return
+}
+
+// name1 spells a one-byte colour as the listing does (written from the specification's table).
+func name1(x uint8) string {
+	switch {
+	case x >= 0xc0:
+		return fmt.Sprintf("CREG[%d]", x&0x3f)
+	case x >= 0x80:
+		return fmt.Sprintf("customPalette[%d]", x&0x3f)
+	case x == 127:
+		return "RGBA 00000000"
+	case x == 126:
+		return "RGBA 80808080"
+	case x == 125:
+		return "RGBA c0c0c0c0"
+	}
+	t := [5]uint8{0, 0x40, 0x80, 0xc0, 0xff}
+	return fmt.Sprintf("RGBA %02x%02x%02xff", t[x/25], t[x/5%5], t[x%5])
+}
+
+// colourText spells a delivered colour operand.
+func colourText(c ivg.Color) string {
+	typ, d := ColorParts(c)
+	switch typ {
+	case 0:
+		switch {
+		case premul(d):
+			return fmt.Sprintf("RGBA %02x%02x%02x%02x", d.R, d.G, d.B, d.A)
+		case d.A == 0 && d.B&0x80 != 0:
+			return fmt.Sprintf("gradient (NSTOPS=%d, CBASE=%d, NBASE=%d, %s, %s)", d.R&0x3f, d.G&0x3f, d.B&0x3f,
+				[]string{"linear", "radial"}[(d.B>>6)&1], []string{"none", "pad", "reflect", "repeat"}[d.G>>6])
+		}
+		return "nonsensical color"
+	case 1:
+		return fmt.Sprintf("customPalette[%d]", d.R)
+	case 2:
+		return fmt.Sprintf("CREG[%d]", d.R)
+	}
+	return fmt.Sprintf("blend (%d:%d) (%s:%s)", 0xff-d.R, d.R, name1(d.G), name1(d.B))
+}
+
+// listingOperands: "the operand values printed (colours, selector and ADJ values …) are the values the
+// decoder delivers": the selector, register-assignment and path-start lines of a successful listing against
+// the delivered calls, in order.
+func listingOperands(caseLine, text string, calls []Call) (fails []Failure) {
+	type item struct{ kind, text string }
+	var want []item
+	for _, c := range calls {
+		switch c.Name {
+		case "csel":
+			want = append(want, item{"sel", fmt.Sprintf("Set CSEL = %d", c.U8)})
+		case "nsel":
+			want = append(want, item{"sel", fmt.Sprintf("Set NSEL = %d", c.U8)})
+		case "creg":
+			if c.Incr {
+				want = append(want, item{"reg", "Set CREG[CSEL-0] to a * color; CSEL++"})
+			} else {
+				want = append(want, item{"reg", fmt.Sprintf("Set CREG[CSEL-%d] to a * color", c.Adj)})
+			}
+			want = append(want, item{"col", colourText(c.Col)})
+		case "nreg":
+			if c.Incr {
+				want = append(want, item{"reg", "Set NREG[NSEL-0] to a * number; NSEL++"})
+			} else {
+				want = append(want, item{"reg", fmt.Sprintf("Set NREG[NSEL-%d] to a * number", c.Adj)})
+			}
+		case "start":
+			want = append(want, item{"reg", fmt.Sprintf("Start path, filled with CREG[CSEL-%d]; M (absolute moveTo)", c.Adj)})
+		}
+	}
+	var got []item
+	started := false
+	for _, l := range strings.Split(strings.TrimSuffix(text, "\n"), "\n") {
+		if len(l) < 14 {
+			continue
+		}
+		txt := l[14:]
+		t := strings.TrimSpace(txt)
+		if !strings.HasPrefix(txt, " ") && !strings.HasPrefix(txt, "IconVG") && !strings.HasPrefix(txt, "Number of") && !strings.HasPrefix(txt, "Metadata") {
+			started = true
+		}
+		if !started {
+			continue // the metadata section (the suggested palette is listed there)
+		}
+		switch {
+		case strings.HasPrefix(t, "Set CSEL = "), strings.HasPrefix(t, "Set NSEL = "):
+			got = append(got, item{"sel", t})
+		case strings.HasPrefix(t, "Set CREG["), strings.HasPrefix(t, "Set NREG["):
+			// the operand width / directness / number kind are not operand values: wildcard them
+			i, j := strings.Index(t, " to a "), strings.LastIndex(t, " color")
+			if strings.HasPrefix(t, "Set NREG[") {
+				j = strings.LastIndex(t, " number")
+			}
+			if i < 0 || j < i {
+				return []Failure{{"C11.line-format", caseLine, "register line: " + t}}
+			}
+			got = append(got, item{"reg", t[:i] + " to a *" + t[j:]})
+		case strings.HasPrefix(t, "Start path"):
+			got = append(got, item{"reg", t})
+		case strings.HasPrefix(txt, "    ") && (strings.HasPrefix(t, "RGBA ") || strings.HasPrefix(t, "gradient (") || strings.HasPrefix(t, "customPalette[") || strings.HasPrefix(t, "CREG[") || strings.HasPrefix(t, "blend (") || t == "nonsensical color"):
+			got = append(got, item{"col", t})
+		}
+	}
+	for i := range want {
+		if i >= len(got) {
+			return []Failure{{"C11.operands", caseLine, fmt.Sprintf("the listing lacks %q (operand %d of the delivered calls)", want[i].text, i)}}
+		}
+		if got[i] != want[i] {
+			return []Failure{{"C11.operands", caseLine, fmt.Sprintf("the listing prints %q where the decoder delivers %q", got[i].text, want[i].text)}}
+		}
+	}
+	if len(got) > len(want) {
+		return []Failure{{"C11.operands", caseLine, fmt.Sprintf("the listing prints %q, which corresponds to no delivered call", got[len(want)].text)}}
+	}
+	return nil
 }
 
 // ---------- C12 ----------
@@ -1695,6 +1861,21 @@ func suiteC19(s *Shard, n int) {
 		for _, f := range monitorC07(line, ops, s) {
 			s.Fail(f.Clause, f.Case, f.Detail)
 		}
+		// "when rendered": the delivered calls into a Renderer over any rectangle (offset, non-uniform scale);
+		// the paint must follow the matrix the helper wrote, which monitorC19 has tied to the requested geometry
+		dst := &Recorder{}
+		var sels [][2]uint8
+		if _, p := runGenInto(dst, ops, &sels); p == "" && len(dst.Calls) < 400 {
+			rect := r.Rect()
+			var smp []image.Point
+			for k := 0; k < 10; k++ {
+				smp = append(smp, image.Pt(r.Intn(rect.Dx()*2)-rect.Dx()/2, r.Intn(rect.Dy()*2)-rect.Dy()/2))
+			}
+			s.emitRen(rect, smp, dst.Calls)
+			for _, f := range monitorGradient(RenCase(rect, smp, dst.Calls), rect, smp, dst.Calls) {
+				s.Fail("C19.rendered/"+f.Clause, f.Case, f.Detail)
+			}
+		}
 	}
 }
 
@@ -1813,19 +1994,23 @@ func suiteC20(s *Shard, n int) {
 	for i := 0; i < n; i++ {
 		if r.Bool() {
 			var ops []GenOp
-			if r.Chance(70) {
-				var affs []generate.Aff3
-				for k := 1 + r.Intn(3); k > 0; k-- {
-					if r.Bool() {
-						affs = append(affs, generate.Scale(float32(1+r.Intn(8))/2, float32(1+r.Intn(8))/2))
-					} else {
-						affs = append(affs, generate.Translate(float32(r.Intn(64)-32), float32(r.Intn(64)-32)))
+			d := ""
+			// one Generator, re-configured between paths
+			for round := 1 + r.Intn(2)*r.Intn(3); round > 0; round-- {
+				if r.Chance(70) {
+					var affs []generate.Aff3
+					for k := 1 + r.Intn(3); k > 0; k-- {
+						if r.Bool() {
+							affs = append(affs, generate.Scale(float32(1+r.Intn(8))/2, float32(1+r.Intn(8))/2))
+						} else {
+							affs = append(affs, generate.Translate(float32(r.Intn(64)-32), float32(r.Intn(64)-32)))
+						}
 					}
+					ops = append(ops, GenOp{Kind: "xf", Affs: affs})
 				}
-				ops = append(ops, GenOp{Kind: "xf", Affs: affs})
+				d = r.PathData(false)
+				ops = append(ops, GenOp{Kind: "path", Adj: uint8(r.Intn(7)), Path: d})
 			}
-			d := r.PathData(false)
-			ops = append(ops, GenOp{Kind: "path", Adj: uint8(r.Intn(7)), Path: d})
 			line := GenCase(ops)
 			obs := s.EmitRun(line)
 			s.Sig("p:" + verbSet(d) + fmt.Sprint(len(ops)))
@@ -1837,10 +2022,18 @@ func suiteC20(s *Shard, n int) {
 			outSize := []float32{48, 24, 64}[r.Intn(3)]
 			off := f32.Vec2{float32(r.Intn(5)) * outSize / size, float32(r.Intn(5)) * outSize / size}
 			var paths []MdPath
-			for k := 1 + r.Intn(3); k > 0; k-- {
+			nPaths, pOpacity := 1+r.Intn(3), 40
+			if r.Chance(12) {
+				// an icon with many translucent paths: up to six registers, then reuse
+				nPaths, pOpacity = 6+r.Intn(6), 90
+			}
+			for k := nPaths; k > 0; k-- {
 				p := MdPath{Opacity: 1, D: r.PathData(true)}
-				if r.Chance(40) {
+				if r.Chance(pOpacity) {
 					p.Opacity = []float32{0.3, 0.54, 0.9, 0.3}[r.Intn(4)]
+					if nPaths > 3 {
+						p.Opacity = []float32{0.3, 0.54, 0.9, 0.125, 0.25, 0.375, 0.5, 0.75}[r.Intn(8)]
+					}
 				}
 				if r.Chance(25) {
 					for c := 1 + r.Intn(2); c > 0; c-- {
@@ -1858,6 +2051,9 @@ func suiteC20(s *Shard, n int) {
 			line := MdiCase(size, off, outSize, paths)
 			obs, _ := RunMdi(size, off, outSize, paths)
 			s.Emit(line, obs)
+			for _, f := range monitorMdi(line, size, off, outSize, paths) {
+				s.Fail(f.Clause, f.Case, f.Detail)
+			}
 			s.Sig("m:" + fmt.Sprint(len(paths), strings.Count(obs, "creg")))
 		}
 	}
